@@ -11,7 +11,7 @@ def optStr (j : Json) (k : String) : Option String := (j.getObjValAs? String k).
 def parseVP (j : Json) : VP :=
   { created := optNat j "created", expires := optNat j "expires", signer := optStr j "signer",
     subjects := (jArr j "subjects").map (fun x => x.getStr?.toOption),
-    aud := jStrs j "aud", nonce := jStr j "nonce", challenge := jStr j "challenge", verifies := jBool j "verifies" }
+    aud := jStrs j "aud", nonce := jStr j "nonce", challenge := jStr j "challenge", verifies := jBool j "verifies", ld := !(jBool j "untimed") }
 
 def parseDPoP (j : Json) : DPoPIn :=
   match jStr j "kind" with
